@@ -1,2 +1,708 @@
-(* Model for C02 — to be written. Executable definitions only, no proofs. *)
-From WI Require Import Lib.Base Lib.Info.
+(* Model for C02 — how keys are described in every container.
+   Go sources: internal/file/keys.go, der.go, ssh.go, parsers.go (PuttyPPK, SSH1PrivateKey,
+   SSHPublicKey, SSHKnownHosts), internal/ssh1/key.go, internal/names/curves.go,
+   and the wire-level readers of x/crypto/ssh (messages.go parseString/parseInt, keys.go
+   parseRSA/parseDSA/parseECDSA/parseED25519) and putty-go (putty/unmarshal.go).
+   Executable definitions only, no proofs.
+
+   Modelled at byte level: every integer encoding (DER INTEGER two's complement, SSH mpint,
+   PuTTY's unsigned reading of an mpint, SSH1 16-bit-counted MPI), the SSH wire structures
+   (public key blobs, the OpenSSH private-key header), the whole SSH1 private key file,
+   parseKdfOptions with Go's slice capacity.  Library answers that are not modelled
+   (asn1.Unmarshal's struct matching, elliptic point validation, the PPK text reader, the
+   line readers ParseAuthorizedKey/ParseKnownHosts, 3DES) enter as arguments. *)
+From WI Require Import Lib.Base Lib.Info Lib.Strings.
+From WI Require gen.KeyTables.
+Import gen.KeyTables.
+Open Scope N_scope.
+
+Definition attr : Type := (bytes * bytes)%type.
+
+(* the repairs made to the repository for this property; the all-false variant is the code as found:
+   F26 (RSA size from the byte length), F27 (PPK Argon2 memory unit), F35 (parseKdfOptions bounds),
+   N1 (a KDF line for PPK files that store no KDF), N2 (encrypted SSH1 keys were not described) *)
+Record fixes := mk_fixes { fx_size : bool; fx_unit : bool; fx_kdf_opts : bool; fx_kdf_v2 : bool; fx_ssh1_enc : bool }.
+Definition all_fixed : fixes := mk_fixes true true true true true.
+Definition none_fixed : fixes := mk_fixes false false false false false.
+(* the code as it is now *)
+Definition current : fixes := all_fixed.
+
+
+(* ------------------------------------------------------------------ *)
+(* integers                                                            *)
+(* ------------------------------------------------------------------ *)
+
+(* math/big Int.BitLen: length of the absolute value in bits, 0 for 0 *)
+Definition bitlen (n : N) : N := N.size n.
+Definition zbitlen (z : Z) : N := N.size (Z.abs_N z).
+
+(* minimal big-endian magnitude (big.Int Bytes): empty for 0 *)
+Definition byte_len (n : N) : nat := N.to_nat ((N.size n + 7) / 8).
+Definition be_min (n : N) : bytes := N_to_be (byte_len n) n.
+
+(* two's complement value of a byte string (no validation) *)
+Definition twos (b : bytes) : Z :=
+  match b with
+  | [] => 0%Z
+  | x :: _ => if 128 <=? x then (Z.of_N (be_to_N b) - 2 ^ (8 * Z.of_nat (length b)))%Z
+              else Z.of_N (be_to_N b)
+  end.
+
+(* encoding/asn1 checkInteger + parseBigInt on the content octets of an INTEGER *)
+Definition der_int_dec (b : bytes) : result Z :=
+  match b with
+  | [] => Err "empty integer"
+  | [_] => Ok (twos b)
+  | x :: y :: _ =>
+      if ((x =? 0) && (y <? 128)) || ((x =? 255) && (128 <=? y))
+      then Err "integer not minimally-encoded"
+      else Ok (twos b)
+  end.
+
+(* DER content octets of a non-negative integer (what every encoder of keys writes):
+   minimal magnitude, a zero sign octet when the top bit is set, one zero octet for 0 *)
+Definition der_int_enc (n : N) : bytes :=
+  match be_min n with
+  | [] => [0]
+  | x :: r => if 128 <=? x then 0 :: x :: r else x :: r
+  end.
+
+(* x/crypto/ssh parseInt on the content of an mpint: two's complement, any length, no minimality check *)
+Definition mpint_dec (b : bytes) : Z := twos b.
+(* x/crypto/ssh marshalInt for n >= 0: empty for 0, sign octet when the top bit is set *)
+Definition mpint_enc (n : N) : bytes :=
+  match be_min n with
+  | [] => []
+  | x :: r => if 128 <=? x then 0 :: x :: r else x :: r
+  end.
+(* putty-go unmarshalMPInt: big.Int.SetBytes, i.e. unsigned *)
+Definition putty_mpint_dec (b : bytes) : N := be_to_N b.
+
+(* ------------------------------------------------------------------ *)
+(* readers over the remaining input                                    *)
+(* ------------------------------------------------------------------ *)
+
+(* io.ReadFull(r, make([]byte, k)) on a bytes.Reader *)
+Definition read_full (k : nat) (r : bytes) : result (bytes * bytes) :=
+  if Nat.ltb (length r) k then Err "EOF" else Ok (take k r, drop k r).
+
+(* internal/ssh1/key.go:134 readMPInt; the bytes handed to big.Int.SetBytes *)
+Definition ssh1_read_mpint_raw (r : bytes) : result (bytes * bytes) :=
+  let* (l, r1) := read_full 2 r in
+  let n := N.to_nat ((be_to_N l + 7) / 8) in
+  if Nat.ltb (length r1) n then Err "unexpected EOF"                      (* n > r.Len() *)
+  else read_full n r1.
+Definition ssh1_read_mpint (r : bytes) : result (N * bytes) :=
+  let* (b, r2) := ssh1_read_mpint_raw r in Ok (be_to_N b, r2).
+
+(* internal/ssh1/key.go:150 readString *)
+Definition ssh1_read_string (r : bytes) : result (bytes * bytes) :=
+  let* (l, r1) := read_full 4 r in
+  let n := be_to_N l in
+  if N.of_nat (length r1) <? n then Err "unexpected EOF"
+  else read_full (N.to_nat n) r1.
+
+(* the writer side of the same format (ssh-keygen -t rsa1): 16-bit bit count, minimal magnitude *)
+Definition ssh1_mpi_enc (n : N) : bytes := N_to_be 2 (bitlen n) ++ be_min n.
+Definition ssh1_string_enc (s : bytes) : bytes := N_to_be 4 (N.of_nat (length s)) ++ s.
+
+(* x/crypto/ssh parseUint32 / parseString *)
+Definition ssh_read_u32 (b : bytes) : option (N * bytes) :=
+  if Nat.ltb (length b) 4 then None else Some (be_to_N (take 4 b), drop 4 b).
+Definition ssh_read_string (b : bytes) : option (bytes * bytes) :=
+  match ssh_read_u32 b with
+  | None => None
+  | Some (l, r) => if N.of_nat (length r) <? l then None
+                   else Some (take (N.to_nat l) r, drop (N.to_nat l) r)
+  end.
+Definition ssh_string_enc (s : bytes) : bytes := N_to_be 4 (N.of_nat (length s)) ++ s.
+
+(* ------------------------------------------------------------------ *)
+(* names (internal/names/curves.go)                                    *)
+(* ------------------------------------------------------------------ *)
+
+Definition lower (s : bytes) : bytes := map to_lower_ascii s.
+
+(* curveNames.String *)
+Definition curve_display (c : list bytes) : bytes :=
+  match c with
+  | [] => []
+  | [x] => x
+  | x :: r => x ++ bs " (" ++ join (bs ", ") r ++ bs ")"
+  end.
+(* curveNames.matches *)
+Definition curve_matches (c : list bytes) (name : bytes) : bool :=
+  existsb (fun n => bytes_eqb (lower n) (lower name)) c.
+
+(* names.Curve, over an arbitrary table *)
+Fixpoint curve_lookup (t : list (list bytes)) (name : bytes) : bytes :=
+  match t with
+  | [] => name_curve_unknown
+  | c :: r => if curve_matches c name then curve_display c else curve_lookup r name
+  end.
+Definition names_curve_in (t : list (list bytes)) (name : bytes) : bytes :=
+  match name with [] => name_curve_unknown | _ => curve_lookup t name end.
+Definition names_curve := names_curve_in named_curves.
+
+(* names.FromCurveParams(params): params.Name *)
+Definition from_curve_params (params_name : bytes) : bytes :=
+  match params_name with [] => name_curve_unknown | _ => names_curve params_name end.
+
+(* asn1.ObjectIdentifier.String *)
+Definition oid_string (arcs : list N) : bytes := join [46] (map dec_of_N arcs).
+Fixpoint oid_eqb (a b : list N) : bool :=
+  match a, b with
+  | [], [] => true
+  | x :: a', y :: b' => (x =? y) && oid_eqb a' b'
+  | _, _ => false
+  end.
+
+Fixpoint assoc (k : bytes) (t : list (bytes * bytes)) : option bytes :=
+  match t with
+  | [] => None
+  | (k', v) :: r => if bytes_eqb k k' then Some v else assoc k r
+  end.
+(* names.CurveNameFromOID *)
+Definition curve_name_from_oid (arcs : list N) : bytes :=
+  match assoc (oid_string arcs) curves_by_oid with
+  | Some n => n
+  | None => oid_string arcs
+  end.
+(* names.FieldTypeFromOid *)
+Definition field_type_from_oid (arcs : list N) : bytes :=
+  if bytes_eqb (oid_string arcs) (oid_string oid_prime_field) then bs "prime field"
+  else if bytes_eqb (oid_string arcs) (oid_string oid_char2_field) then bs "characteristic 2 field"
+  else oid_string arcs.
+
+(* ------------------------------------------------------------------ *)
+(* attribute builders (internal/file/keys.go)                          *)
+(* ------------------------------------------------------------------ *)
+
+Definition bits_value (n : N) : bytes := dec_of_N n ++ bs " bits".   (* fmt.Sprintf("%d bits", n) *)
+
+(* keys.go:213/220 pkcs1PrivateKeyAttributes / pkcs1PublicKeyAttributes: k.N.BitLen() *)
+Definition pkcs1_attrs (n : Z) : list attr :=
+  [(bs "Algorithm", name_rsa); (bs "Size", bits_value (zbitlen n))].
+(* keys.go:227 rsaPublicKeyAttributes.  Before the repair (fixed = false) it printed k.Size()*8,
+   the length in whole bytes times eight (F26) *)
+Definition rsa_public_attrs (fixed : bool) (n : Z) : list attr :=
+  [(bs "Algorithm", name_rsa);
+   (bs "Size", bits_value (if fixed then zbitlen n else ((zbitlen n + 7) / 8) * 8))].
+(* keys.go:84/91 dsaPrivateKeyAttributes / dsaPublicKeyAttributes *)
+Definition dsa_attrs (p : Z) : list attr :=
+  [(bs "Algorithm", name_dsa); (bs "Size", bits_value (zbitlen p))].
+(* keys.go:98 dsaParameterAttributes *)
+Definition dsa_parameter_attrs (p : Z) : list attr := [(bs "Size", bits_value (zbitlen p))].
+(* keys.go:130 namedCurveAttributes *)
+Definition named_curve_attrs (arcs : list N) : list attr := [(bs "Curve", curve_name_from_oid arcs)].
+(* keys.go:162 ecdsaPublicKeyAttributes *)
+Definition ecdsa_public_attrs (params_name : bytes) : list attr :=
+  [(bs "Algorithm", name_ecdsa); (bs "Curve", from_curve_params params_name)].
+(* keys.go:136 ecdhPublicKeyAttributes; the curve is a fmt.Stringer or not *)
+Definition ecdh_public_attrs (curve_string : option bytes) : list attr :=
+  (bs "Algorithm", name_ecdh) ::
+  match curve_string with Some s => [(bs "Curve", names_curve s)] | None => [] end.
+Definition ed25519_attrs : list attr := [(bs "Algorithm", name_eddsa); (bs "Curve", names_curve (bs "Ed25519"))].
+Definition ed448_attrs : list attr := [(bs "Algorithm", name_eddsa); (bs "Curve", names_curve (bs "Ed448"))].
+Definition x25519_attrs : list attr := [(bs "Algorithm", name_ecdh); (bs "Curve", names_curve (bs "X25519"))].
+Definition x448_attrs : list attr := [(bs "Algorithm", name_ecdh); (bs "Curve", names_curve (bs "X448"))].
+
+(* what cryptoPublicKeyAttributes distinguishes in a crypto.PublicKey.  Only public
+   components exist in this type: the describers cannot see a private one. *)
+Inductive pubkey : Type :=
+| PkRsa (n : Z)
+| PkDsa (p : Z)
+| PkEcdsa (params_name : bytes)
+| PkEcdh (curve_string : option bytes)
+| PkEd25519
+| PkOther.
+
+(* keys.go:20 cryptoPublicKeyAttributes *)
+Definition crypto_public_attrs (fixed : bool) (k : pubkey) : list attr :=
+  match k with
+  | PkRsa n => rsa_public_attrs fixed n
+  | PkDsa p => dsa_attrs p
+  | PkEcdsa c => ecdsa_public_attrs c
+  | PkEcdh c => ecdh_public_attrs c
+  | PkEd25519 => ed25519_attrs
+  | PkOther => []
+  end.
+
+(* ------------------------------------------------------------------ *)
+(* DER containers (internal/file/der.go); asn1.Unmarshal is the oracle *)
+(* ------------------------------------------------------------------ *)
+
+(* what parseECParameters' two Unmarshal attempts produce *)
+Inductive ecparams : Type :=
+| EcNamed (arcs : list N)
+| EcExplicit (field_type : list N)
+             (prime : option bytes)      (* Unmarshal(FieldId.Parameters, a big.Int): content octets *)
+             (char2 : option bytes)      (* Unmarshal(FieldId.Parameters, &struct{FieldSize}) *)
+             (inferred : result bytes).  (* elliptic.CurveNameFromParameters (C16) *)
+
+(* keys.go:104 ecExplicitParameterAttributes *)
+Definition ec_explicit_attrs (ft : list N) (prime char2 : option bytes) (inferred : result bytes)
+  : result (list attr) :=
+  let a0 := [(bs "Field type", field_type_from_oid ft)] in
+  let a1 := if oid_eqb ft oid_prime_field then
+              match prime with Some o => [(bs "Prime size", bits_value (zbitlen (twos o)))] | None => [] end
+            else [] in
+  let a2 := if oid_eqb ft oid_char2_field then
+              match char2 with Some o => [(bs "Field size", bs "2^" ++ dec_of_Z (twos o))] | None => [] end
+            else [] in
+  let* name := inferred in
+  Ok (a0 ++ a1 ++ a2 ++ match name with [] => [] | _ => [(bs "Curve (inferred)", name)] end).
+
+(* der.go:321 parseECParameters (attributes only) *)
+Definition ec_parameters_attrs (p : result ecparams) : result (list attr) :=
+  let* q := p in
+  match q with
+  | EcNamed arcs => Ok (named_curve_attrs arcs)
+  | EcExplicit ft pr c2 inf => ec_explicit_attrs ft pr c2 inf
+  end.
+
+(* an error of a nested parse only drops its attributes; a panic propagates *)
+Definition attrs_or_none (r : result (list attr)) : result (list attr) :=
+  match r with Ok a => Ok a | Err _ => Ok [] | Panic s => Panic s end.
+
+(* keys.go:45 pkixPublicKeyAttributes.  dsa_p: Unmarshal(Parameters, &DSAParameters) -> octets of P;
+   rsa_n: Unmarshal(PublicKey.Bytes, &PKCS1PublicKey) -> octets of N *)
+Definition pkix_attrs (alg : list N) (dsa_p rsa_n : option bytes) (ec : result ecparams)
+  : result (list attr) :=
+  if oid_eqb alg oid_dsa then
+    Ok ((bs "Algorithm", name_dsa) :: match dsa_p with Some o => dsa_parameter_attrs (twos o) | None => [] end)
+  else if oid_eqb alg oid_rsa then
+    Ok (match rsa_n with Some o => pkcs1_attrs (twos o) | None => [] end)
+  else if oid_eqb alg oid_ec_public_key then
+    let* a := attrs_or_none (ec_parameters_attrs ec) in Ok ((bs "Algorithm", name_ecdsa) :: a)
+  else if oid_eqb alg oid_ed25519 then Ok ed25519_attrs
+  else if oid_eqb alg oid_ed448 then Ok ed448_attrs
+  else if oid_eqb alg oid_x25519 then Ok x25519_attrs
+  else if oid_eqb alg oid_x448 then Ok x448_attrs
+  else Ok [].
+
+(* der.go:262 parsePKCS8PrivateKey (attributes).  rsa_n: Unmarshal(PrivateKey, &PKCS1PrivateKey) *)
+Definition pkcs8_attrs (alg : list N) (dsa_p rsa_n : option bytes) (ec : result ecparams)
+  : result (list attr) :=
+  if oid_eqb alg oid_dsa then
+    Ok ((bs "Algorithm", name_dsa) :: match dsa_p with Some o => dsa_parameter_attrs (twos o) | None => [] end)
+  else if oid_eqb alg oid_rsa then
+    Ok (match rsa_n with Some o => pkcs1_attrs (twos o) | None => [] end)
+  else if oid_eqb alg oid_ec_public_key then
+    let* a := attrs_or_none (ec_parameters_attrs ec) in Ok ((bs "Algorithm", name_ecdsa) :: a)
+  else if oid_eqb alg oid_ed25519 then Ok ed25519_attrs
+  else if oid_eqb alg oid_ed448 then Ok ed448_attrs
+  else if oid_eqb alg oid_x25519 then Ok x25519_attrs
+  else if oid_eqb alg oid_x448 then Ok x448_attrs
+  else Ok [].
+
+(* keys.go:148 ecPrivateKeyAttributes *)
+Definition ec_private_attrs (named : list N) (ft : list N) (prime char2 : option bytes) (inferred : result bytes)
+  : result (list attr) :=
+  match named with
+  | _ :: _ => Ok ((bs "Algorithm", name_ecdsa) :: named_curve_attrs named)
+  | [] => let* a := ec_explicit_attrs ft prime char2 inferred in Ok ((bs "Algorithm", name_ecdsa) :: a)
+  end.
+
+(* the parse* functions of der.go: description + attributes, error when Unmarshal failed *)
+Definition with_desc (d : string) (a : result (list attr)) : result info :=
+  let* x := a in Ok (Info (bs d) x []).
+Arguments with_desc d%string a.
+Definition parse_pkcs1_public (n : option bytes) : result info :=
+  match n with Some o => Ok (Info (bs "PKCS#1 public key") (pkcs1_attrs (twos o)) []) | None => Err "asn1" end.
+Definition parse_pkcs1_private (n : option bytes) : result info :=
+  match n with Some o => Ok (Info (bs "PKCS#1 private key") (pkcs1_attrs (twos o)) []) | None => Err "asn1" end.
+Definition parse_dsa_private (p : option bytes) : result info :=
+  match p with Some o => Ok (Info (bs "DSA private key") (dsa_attrs (twos o)) []) | None => Err "asn1" end.
+Definition parse_dsa_parameters (p : option bytes) : result info :=
+  match p with Some o => Ok (Info (bs "DSA parameters") (dsa_parameter_attrs (twos o)) []) | None => Err "asn1" end.
+Definition parse_ec_parameters (p : result ecparams) : result info :=
+  with_desc "EC parameters" (ec_parameters_attrs p).
+
+(* ------------------------------------------------------------------ *)
+(* SSH public key blobs (x/crypto/ssh ParsePublicKey)                  *)
+(* ------------------------------------------------------------------ *)
+
+Record sshkey := mk_sshkey { sk_type : bytes; sk_key : option pubkey }.   (* None: not a CryptoPublicKey *)
+
+(* the answers of the library that are not modelled: whether an EC point is on its curve,
+   and keys of other algorithms (sk-*, certificates): accepted?, Type() *)
+Record ssh_oracle := mk_ssh_oracle { so_accepted : bool; so_type : bytes }.
+
+Definition nist_of_curve (c : bytes) : option (bytes * bytes) :=   (* Params().Name, nistID *)
+  if bytes_eqb c (bs "nistp256") then Some (bs "P-256", bs "nistp256")
+  else if bytes_eqb c (bs "nistp384") then Some (bs "P-384", bs "nistp384")
+  else if bytes_eqb c (bs "nistp521") then Some (bs "P-521", bs "nistp521")
+  else None.
+
+Definition ssh_parse_public (o : ssh_oracle) (blob : bytes) : result sshkey :=
+  match ssh_read_string blob with
+  | None => Err "short read"
+  | Some (algo, r0) =>
+    if bytes_eqb algo (bs "ssh-rsa") then                       (* keys.go:442 parseRSA *)
+      match ssh_read_string r0 with None => Err "short read" | Some (e, r1) =>
+      match ssh_read_string r1 with None => Err "short read" | Some (n, r2) =>
+        let ez := mpint_dec e in
+        if 24 <? zbitlen ez then Err "ssh: exponent too large"
+        else if (ez <? 3)%Z || Z.even ez then Err "ssh: incorrect exponent"
+        else match r2 with
+             | [] => Ok (mk_sshkey (bs "ssh-rsa") (Some (PkRsa (mpint_dec n))))
+             | _ => Err "ssh: trailing junk in public key"
+             end
+      end end
+    else if bytes_eqb algo (bs "ssh-dss") then                  (* keys.go:558 parseDSA *)
+      match ssh_read_string r0 with None => Err "short read" | Some (p, r1) =>
+      match ssh_read_string r1 with None => Err "short read" | Some (_, r2) =>
+      match ssh_read_string r2 with None => Err "short read" | Some (_, r3) =>
+      match ssh_read_string r3 with None => Err "short read" | Some (_, r4) =>
+        if negb (zbitlen (mpint_dec p) =? 1024) then Err "ssh: unsupported DSA key size"
+        else match r4 with
+             | [] => Ok (mk_sshkey (bs "ssh-dss") (Some (PkDsa (mpint_dec p))))
+             | _ => Err "ssh: trailing junk in public key"
+             end
+      end end end end
+    else if bytes_eqb algo (bs "ecdsa-sha2-nistp256") || bytes_eqb algo (bs "ecdsa-sha2-nistp384")
+            || bytes_eqb algo (bs "ecdsa-sha2-nistp521") then   (* keys.go:746 parseECDSA *)
+      match ssh_read_string r0 with None => Err "short read" | Some (curve, r1) =>
+      match ssh_read_string r1 with None => Err "short read" | Some (_, r2) =>
+        match nist_of_curve curve with
+        | None => Err "ssh: unsupported curve"
+        | Some (pname, nid) =>
+            if negb (so_accepted o) then Err "ssh: invalid curve point"     (* oracle: elliptic.Unmarshal *)
+            else match r2 with
+                 | [] => Ok (mk_sshkey (bs "ecdsa-sha2-" ++ nid) (Some (PkEcdsa pname)))
+                 | _ => Err "ssh: trailing junk in public key"
+                 end
+        end
+      end end
+    else if bytes_eqb algo (bs "ssh-ed25519") then              (* keys.go:694 parseED25519 *)
+      match ssh_read_string r0 with None => Err "short read" | Some (k, r1) =>
+        if negb (Nat.eqb (length k) 32) then Err "invalid size for Ed25519 public key"
+        else match r1 with
+             | [] => Ok (mk_sshkey (bs "ssh-ed25519") (Some PkEd25519))
+             | _ => Err "ssh: trailing junk in public key"
+             end
+      end
+    else                                                         (* sk-*, certificates, unknown: oracle *)
+      if so_accepted o then Ok (mk_sshkey (so_type o) None) else Err "ssh: unknown key algorithm"
+  end.
+
+(* ssh.go:37 sshPublicKeyAttributes *)
+Definition ssh_public_attrs (fixed : bool) (k : sshkey) (comment : bytes) : list attr :=
+  (bs "Type", sk_type k) ::
+  match comment with [] => [] | _ => [(bs "Comment", comment)] end ++
+  match sk_key k with Some pk => crypto_public_attrs fixed pk | None => [] end.
+
+(* ssh.go:50 sshKnownHostsKeyAttributes *)
+Definition ssh_known_hosts_attrs (fixed : bool) (hosts : list bytes) (k : sshkey) (comment : bytes) : list attr :=
+  (bs "Hosts", join (bs ", ") hosts) :: ssh_public_attrs fixed k comment.
+
+(* ------------------------------------------------------------------ *)
+(* parseKdfOptions (ssh.go:56) with Go's slice capacity                *)
+(* ------------------------------------------------------------------ *)
+
+(* opts is the window [off, off+len) of the buffer buf, its capacity reaches the end of buf
+   (ssh.Unmarshal hands out two-index sub-slices of its input) *)
+Definition two32 : N := 4294967296.
+
+Definition parse_kdf_options (fixed : bool) (buf : bytes) (off len : nat) : result (bytes * N) :=
+  let cap := (length buf - off)%nat in
+  let opts := take len (drop off buf) in
+  if fixed then
+    (* repaired: if len(opts) < 8 -> error; saltLen+8 compared with len(opts) in uint64 *)
+    if Nat.ltb len 8 then Err "invalid KDF options" else
+    let salt_len := be_to_N (take 4 opts) in
+    if negb (salt_len + 8 =? N.of_nat len) then Err "invalid KDF options" else
+    let i := N.to_nat (4 + salt_len) in
+    Ok (take (i - 4) (drop 4 opts), be_to_N (take 4 (drop i opts)))
+  else
+    (* opts[:4]: legal up to cap(opts), reads past len(opts) into the next field *)
+    if Nat.ltb cap 4 then Panic "slice bounds out of range [:4] with capacity" else
+    let salt_len := be_to_N (take 4 (drop off buf)) in
+    if negb ((4 + salt_len + 4) mod two32 =? N.of_nat len mod two32) then Err "invalid KDF options" else
+    let i := N.to_nat ((4 + salt_len) mod two32) in
+    (* opts[4+saltLen:] then Uint32 of it *)
+    if Nat.ltb len i then Panic "slice bounds out of range [i:len]" else
+    if Nat.ltb (len - i) 4 then Panic "index out of range [3]" else
+    let rounds := be_to_N (take 4 (drop i opts)) in
+    (* opts[4 : 4+saltLen] *)
+    if Nat.ltb cap i then Panic "slice bounds out of range [:i] with capacity" else
+    if Nat.ltb i 4 then Panic "slice bounds out of range [4:i]" else
+    Ok (take (i - 4) (drop 4 (drop off buf)), rounds).
+
+Definition kdf_options_enc (salt : bytes) (rounds : N) : bytes :=
+  ssh_string_enc salt ++ N_to_be 4 rounds.
+
+(* ------------------------------------------------------------------ *)
+(* OpenSSH private key (der.go:388 parseOpenSSHPrivateKey)             *)
+(* ------------------------------------------------------------------ *)
+
+Definition ossh_magic : bytes := bs "openssh-key-v1" ++ [0].
+
+Record ossh_header := mk_ossh {
+  oh_cipher : bytes; oh_kdf : bytes; oh_opts_off : nat; oh_opts_len : nat;
+  oh_numkeys : N; oh_pubkey : bytes; oh_priv : bytes }.
+
+(* ssh.Unmarshal(remaining, &w): string string []byte uint32 []byte []byte, nothing may follow *)
+Definition ossh_unmarshal (rem : bytes) : result ossh_header :=
+  match rem with [] => Err "ssh: parse error" | _ =>
+  match ssh_read_string rem with None => Err "ssh: field CipherName" | Some (cipher, r1) =>
+  match ssh_read_string r1 with None => Err "ssh: field KdfName" | Some (kdf, r2) =>
+  match ssh_read_string r2 with None => Err "ssh: short read" | Some (opts, r3) =>
+  match ssh_read_u32 r3 with None => Err "ssh: short read" | Some (nk, r4) =>
+  match ssh_read_string r4 with None => Err "ssh: short read" | Some (pub, r5) =>
+  match ssh_read_string r5 with None => Err "ssh: short read" | Some (priv, r6) =>
+  match r6 with
+  | [] => Ok (mk_ossh cipher kdf (length rem - length r2 + 4) (length opts) nk pub priv)
+  | _ => Err "ssh: parse error"
+  end end end end end end end end.
+
+Definition parse_openssh_private (fx : fixes) (o : ssh_oracle) (der : bytes) : result info :=
+  if negb (prefix_of ossh_magic der) then Err "ssh: invalid openssh private key format" else
+  let rem := drop (length ossh_magic) der in
+  let* w := ossh_unmarshal rem in
+  if negb (oh_numkeys w =? 1) then Err "ssh: multi-key files are not supported" else
+  match ssh_parse_public o (oh_pubkey w) with
+  | Panic s => Panic s
+  | Err _ => Err "ssh: malformed OpenSSH key"
+  | Ok pk =>
+      let a := ssh_public_attrs (fx_size fx) pk [] in
+      if bytes_eqb (oh_cipher w) (bs "none") then Ok (Info (bs "OpenSSH private key") a [])
+      else
+        let a1 := a ++ [(bs "Cipher", oh_cipher w); (bs "KDF", oh_kdf w)] in
+        match parse_kdf_options (fx_kdf_opts fx) rem (oh_opts_off w) (oh_opts_len w) with
+        | Panic s => Panic s
+        | Err _ => Ok (Info (bs "OpenSSH private key (encrypted)") a1 [])
+        | Ok (_, rounds) =>
+            Ok (Info (bs "OpenSSH private key (encrypted)") (a1 ++ [(bs "KDF rounds", dec_of_N rounds)]) [])
+        end
+  end.
+
+(* writer of the same structure (sshkey.c sshkey_private_to_blob2) *)
+Definition ossh_enc (cipher kdf opts pub priv : bytes) : bytes :=
+  ossh_magic ++ ssh_string_enc cipher ++ ssh_string_enc kdf ++ ssh_string_enc opts ++
+  N_to_be 4 1 ++ ssh_string_enc pub ++ ssh_string_enc priv.
+
+(* blob writers (RFC 4253 6.6, RFC 5656 3.1, RFC 8709) *)
+Definition ssh_rsa_blob (e n : N) : bytes :=
+  ssh_string_enc (bs "ssh-rsa") ++ ssh_string_enc (mpint_enc e) ++ ssh_string_enc (mpint_enc n).
+Definition ssh_dss_blob (p q g y : N) : bytes :=
+  ssh_string_enc (bs "ssh-dss") ++ ssh_string_enc (mpint_enc p) ++ ssh_string_enc (mpint_enc q) ++
+  ssh_string_enc (mpint_enc g) ++ ssh_string_enc (mpint_enc y).
+Definition ssh_ecdsa_blob (nid point : bytes) : bytes :=
+  ssh_string_enc (bs "ecdsa-sha2-" ++ nid) ++ ssh_string_enc nid ++ ssh_string_enc point.
+Definition ssh_ed25519_blob (pk : bytes) : bytes :=
+  ssh_string_enc (bs "ssh-ed25519") ++ ssh_string_enc pk.
+Definition ssh_ed448_blob (pk : bytes) : bytes :=
+  ssh_string_enc (bs "ssh-ed448") ++ ssh_string_enc pk.
+
+(* ------------------------------------------------------------------ *)
+(* PuTTY (putty-go putty/unmarshal.go, parsers.go:186 PuttyPPK)        *)
+(* ------------------------------------------------------------------ *)
+
+(* readLengthPrefixedBytes *)
+Definition putty_read (b : bytes) : option (bytes * bytes) :=
+  if Nat.ltb (length b) 4 then None else
+  let l := be_to_N (take 4 b) in
+  if N.of_nat (length b) <? 4 + l then None
+  else Some (take (N.to_nat l) (drop 4 b), drop (4 + N.to_nat l) b).
+
+(* strings.Replace(s, old, new, 1) *)
+Fixpoint replace_first (fuel : nat) (old new s : bytes) : bytes :=
+  if prefix_of old s then new ++ drop (length old) s
+  else match fuel, s with
+       | S f, c :: r => c :: replace_first f old new r
+       | _, _ => s
+       end.
+Definition go_curve_name (s : bytes) : bytes := replace_first (length s) (bs "nistp") (bs "P-") s.
+
+Definition putty_curve_of_type (t : bytes) : option bytes :=
+  if bytes_eqb t (bs "ecdsa-sha2-nistp256") then Some (bs "P-256")
+  else if bytes_eqb t (bs "ecdsa-sha2-nistp384") then Some (bs "P-384")
+  else if bytes_eqb t (bs "ecdsa-sha2-nistp521") then Some (bs "P-521")
+  else None.
+
+(* the key as PuTTY's reader returns it: the type string and either a crypto.PublicKey
+   the describers know, or the unexported ed448 type *)
+Inductive putty_key := PuttyKey (typ : bytes) (k : pubkey) | PuttyEd448 (typ : bytes).
+
+(* putty.UnmarshalPublicKey *)
+Definition putty_unmarshal_public (blob : bytes) : result putty_key :=
+  match putty_read blob with
+  | None => Err "unmarshalString: short data"
+  | Some (t, r0) =>
+    if bytes_eqb t (bs "ssh-dss") then
+      match putty_read r0 with None => Err "short data" | Some (p, r1) =>
+      match putty_read r1 with None => Err "short data" | Some (_, r2) =>
+      match putty_read r2 with None => Err "short data" | Some (_, r3) =>
+      match putty_read r3 with None => Err "short data" | Some (_, _) =>
+        Ok (PuttyKey t (PkDsa (Z.of_N (putty_mpint_dec p))))
+      end end end end
+    else match putty_curve_of_type t with
+    | Some pname =>
+      match putty_read r0 with None => Err "short data" | Some (curve, r1) =>
+        if negb (bytes_eqb pname (go_curve_name curve)) then Err "mismatched curve"
+        else match putty_read r1 with None => Err "short data" | Some (_, _) =>
+               Ok (PuttyKey t (PkEcdsa pname))        (* the point is not validated *)
+             end
+      end
+    | None =>
+      if bytes_eqb t (bs "ssh-ed25519") then
+        match putty_read r0 with None => Err "short data" | Some (_, _) => Ok (PuttyKey t PkEd25519) end
+      else if bytes_eqb t (bs "ssh-ed448") then
+        match putty_read r0 with None => Err "short data" | Some (_, _) => Ok (PuttyEd448 t) end
+      else if bytes_eqb t (bs "ssh-rsa") then
+        match putty_read r0 with None => Err "short data" | Some (_, r1) =>
+        match putty_read r1 with None => Err "short data" | Some (n, _) =>
+          Ok (PuttyKey t (PkRsa (Z.of_N (putty_mpint_dec n))))
+        end end
+      else Err "unsupported key type"
+    end
+  end.
+
+(* ssh.go:13 puttyPublicKeyAttributes *)
+Definition putty_public_attrs (fixed : bool) (k : putty_key) (comment : bytes) : list attr :=
+  let t := match k with PuttyKey t _ => t | PuttyEd448 t => t end in
+  (bs "Type", t) ::
+  match comment with [] => [] | _ => [(bs "Comment", comment)] end ++
+  match k with PuttyEd448 _ => ed448_attrs | PuttyKey _ pk => crypto_public_attrs fixed pk end.
+
+(* what ppk.InsecureParse returns (the text layer is the library's) *)
+Record ppk_parsed := mk_ppk {
+  pp_version : Z; pp_type : bytes; pp_encryption : bytes; pp_comment : bytes; pp_public : bytes;
+  pp_kdf : bytes; pp_memory : Z; pp_passes : Z; pp_parallelism : Z }.
+
+(* parsers.go:186 PuttyPPK *)
+Definition putty_ppk (fx : fixes) (p : option ppk_parsed) : result info :=
+  match p with
+  | None => Err "putty.ParsePPKBytes"
+  | Some k =>
+    let desc := bs "puTTY private key (version " ++ dec_of_Z (pp_version k) ++ bs ")" in
+    let* pub := match putty_unmarshal_public (pp_public k) with
+                | Ok x => Ok x | Err _ => Err "ssh.ParsePublicKey" | Panic s => Panic s end in
+    let a := putty_public_attrs (fx_size fx) pub (pp_comment k) ++ [(bs "Encryption", pp_encryption k)] in
+    let show_kdf := negb (bytes_eqb (pp_encryption k) (bs "none")) &&
+                    (if fx_kdf_v2 fx then negb (bytes_eqb (pp_kdf k) []) else true) in
+    if show_kdf then
+      Ok (Info desc (a ++ [(bs "KDF", pp_kdf k ++ bs " (" ++ dec_of_Z (pp_passes k) ++ bs " passes, " ++
+                               dec_of_Z (pp_memory k) ++ (if fx_unit fx then bs " KiB" else bs " MB") ++
+                               bs ", parallelism: " ++ dec_of_Z (pp_parallelism k) ++ bs ")")]) [])
+    else Ok (Info desc a [])
+  end.
+
+(* blob writers as PuTTY writes them (same wire format as OpenSSH) *)
+Definition putty_rsa_blob := ssh_rsa_blob.
+
+(* ------------------------------------------------------------------ *)
+(* SSH1 private key file (internal/ssh1/key.go:21 ParsePrivateKey)     *)
+(* ------------------------------------------------------------------ *)
+
+(* the integers are kept as the magnitude bytes read from the file; their values are be_to_N of them *)
+Record ssh1_key := mk_ssh1 {
+  s1_n_raw : bytes; s1_e_raw : bytes; s1_comment : bytes;
+  s1_d_raw : bytes; s1_q_raw : bytes; s1_p_raw : bytes }.
+(* ParsePrivateKey returns the key read so far together with ErrCorrupted at three places *)
+Inductive ssh1_outcome : Type :=
+| S1Key (k : ssh1_key)
+| S1Corrupted (n_raw e_raw comment : bytes).
+Definition s1_n (k : ssh1_key) : N := be_to_N (s1_n_raw k).
+Definition s1_d (k : ssh1_key) : N := be_to_N (s1_d_raw k).
+Definition s1_q (k : ssh1_key) : N := be_to_N (s1_q_raw k).
+Definition s1_p (k : ssh1_key) : N := be_to_N (s1_p_raw k).
+
+(* Go's s[:n] and s[n:] on a slice whose capacity equals its length: panic when out of range *)
+Definition go_slice_to (l : bytes) (n : nat) : result bytes :=
+  if Nat.ltb (length l) n then Panic "slice bounds out of range [:n]" else Ok (take n l).
+Definition go_slice_from (l : bytes) (n : nat) : result bytes :=
+  if Nat.ltb (length l) n then Panic "slice bounds out of range [n:]" else Ok (drop n l).
+Definition go_index (l : bytes) (i : nat) : result N :=
+  if Nat.ltb i (length l) then Ok (nth i l 0) else Panic "index out of range".
+
+(* crypto.go decrypt: CryptBlocks panics unless the input is whole blocks; dec is 3DES (oracle) *)
+Definition ssh1_decrypt (dec : bytes -> bytes) (ct : bytes) : result bytes :=
+  if Nat.eqb (Nat.modulo (length ct) 8) 0 then Ok (dec ct)
+  else Panic "crypto/cipher: input not full blocks".
+
+Definition ssh1_parse (dec : bytes -> bytes) (data : bytes) : result ssh1_outcome :=
+  let hl := length ssh1_header in
+  if Nat.ltb (length data) hl then Err "invalid SSH1 private key" else       (* key.go:22 *)
+  let* h := go_slice_to data hl in
+  if negb (bytes_eqb h ssh1_header) then Err "invalid SSH1 private key" else
+  let* r := go_slice_from data hl in                                           (* key.go:26 *)
+  let* (hdr9, r) := match read_full 9 r with Ok x => Ok x | _ => Err "corrupted" end in  (* key.go:29 *)
+  let cipher := nth 0 hdr9 0 in
+  let* (n, r) := ssh1_read_mpint_raw r in
+  let* (e, r) := ssh1_read_mpint_raw r in
+  let* (comment, r) := ssh1_read_string r in
+  let corrupted := Ok (S1Corrupted n e comment) in
+  let* r1 :=                                                                   (* key.go:57 *)
+     if cipher =? 3 then
+       if negb (Nat.eqb (Nat.modulo (length r) 8) 0) then Ok None
+       else let* p := ssh1_decrypt dec r in Ok (Some p)
+     else Ok (Some r) in
+  match r1 with None => corrupted | Some r =>
+  match read_full 4 r with                                                     (* key.go:67 *)
+  | Ok (abab, r) =>
+    if negb ((nth 0 abab 0 =? nth 2 abab 0) && (nth 1 abab 0 =? nth 3 abab 0)) then corrupted else
+    let* (d, r) := ssh1_read_mpint_raw r in
+    let* (_, r) := ssh1_read_mpint_raw r in      (* qInv *)
+    let* (q, r) := ssh1_read_mpint_raw r in
+    let* (p, r) := ssh1_read_mpint_raw r in
+    Ok (S1Key (mk_ssh1 n e comment d q p))
+  | _ => corrupted
+  end end.
+
+(* ssh.go:28 ssh1PublicKeyAttributes: priv.Public() is the *rsa.PublicKey, nothing else is passed *)
+Definition ssh1_public_attrs (fixed : bool) (n : N) (comment : bytes) : list attr :=
+  match comment with [] => [] | _ => [(bs "Comment", comment)] end ++
+  crypto_public_attrs fixed (PkRsa (Z.of_N n)).
+
+(* parsers.go:267 SSH1PrivateKey.  Since the repair N2 a key whose private half cannot be read
+   because it is encrypted (cipher type byte not 0) is described from its public half *)
+Definition ssh1_private_key (fx : fixes) (dec : bytes -> bytes) (data : bytes) : result info :=
+  let* o := ssh1_parse dec data in
+  match o with
+  | S1Key k => Ok (Info (bs "SSH v1 key") (ssh1_public_attrs (fx_size fx) (s1_n k) (s1_comment k)) [])
+  | S1Corrupted n _ comment =>
+      if fx_ssh1_enc fx then
+        let* c := go_index data (length ssh1_header) in
+        if c =? 0 then Err "ssh1.ParsePrivateKey: corrupted"
+        else Ok (Info (bs "SSH v1 key (encrypted)") (ssh1_public_attrs (fx_size fx) (be_to_N n) comment) [])
+      else Err "ssh1.ParsePrivateKey: corrupted"
+  end.
+
+(* writer of an unencrypted key file (ssh-keygen -t rsa1, authfile.c) *)
+Definition ssh1_enc (cipher : N) (n e : N) (comment : bytes) (a b : N) (d qinv q p : N) (pad : bytes) : bytes :=
+  ssh1_header ++ [cipher] ++ [0; 0; 0; 0] ++ N_to_be 4 (bitlen n) ++
+  ssh1_mpi_enc n ++ ssh1_mpi_enc e ++ ssh1_string_enc comment ++
+  [a; b; a; b] ++ ssh1_mpi_enc d ++ ssh1_mpi_enc qinv ++ ssh1_mpi_enc q ++ ssh1_mpi_enc p ++ pad.
+
+(* ------------------------------------------------------------------ *)
+(* line-level parsers (parsers.go:298 SSHKnownHosts, :319 SSHPublicKey) *)
+(* ------------------------------------------------------------------ *)
+
+(* ssh.ParseAuthorizedKey's answer: the blob of the first key that parses and its comment *)
+Definition ssh_public_key_line (fixed : bool) (o : ssh_oracle) (line : option (bytes * bytes)) : result info :=
+  match line with
+  | None => Err "ssh.ParsePublicKey"
+  | Some (blob, comment) =>
+      match ssh_parse_public o blob with
+      | Ok k => Ok (Info (bs "SSH public key") (ssh_public_attrs fixed k comment) [])
+      | Err e => Err e | Panic s => Panic s
+      end
+  end.
+
+Inductive known_hosts_line :=
+| KhBlank | KhError | KhEntry (hosts : list bytes) (blob comment : bytes).
+
+Definition ssh_known_hosts_one (fixed : bool) (o : ssh_oracle) (l : known_hosts_line) : result info :=
+  match l with
+  | KhBlank => Ok (Info (bs "SSH known_hosts") [] [])
+  | KhError => Err "ssh.ParseKnownHosts"
+  | KhEntry hosts blob comment =>
+      match ssh_parse_public o blob with
+      | Ok k => Ok (Info (bs "SSH known_hosts") []
+                      [Info (bs "SSH public key") (ssh_known_hosts_attrs fixed hosts k comment) []])
+      | Err e => Err e | Panic s => Panic s
+      end
+  end.
